@@ -91,7 +91,13 @@ def to_byte(v, k):
     """byte k (0 = least significant) of value"""
     if isinstance(v, int):
         return (v >> (8 * k)) & 0xff
-    return simp(z3.Extract(8 * k + 7, 8 * k, v))
+    raw = z3.Extract(8 * k + 7, 8 * k, v)
+    r = simp(raw)
+    # keep the syntactic form "byte k of v" unless simplification gives a constant or a plain extract: z3 pushes
+    # extracts through additions, which would hide the round trip from from_bytes_ex
+    if isinstance(r, int) or z3.is_app_of(r, z3.Z3_OP_EXTRACT) or r.num_args() == 0:
+        return r
+    return raw
 
 def s_setint64(ex, a, i):
     bset(ex, a[0], signed(a[1], 64) if isinstance(a[1], int) else a[1], 8)
@@ -177,7 +183,13 @@ def s_add(ex, a, i):
     if isinstance(x, int) and isinstance(y, int):
         bset(ex, a[0], x + y, 0)
     else:
-        bset(ex, a[0], simp(tobv(x, W) + tobv(y, W)), min(max(mx, my) + 1, W // 8))
+        r = simp(tobv(x, W) + tobv(y, W))
+        mb = max(mx, my)
+        # the sum usually still fits in the larger operand's byte length (e.g. (x mod (n-1)) + 1 < n): one cheap
+        # query keeps the byte bound tight, which lets byte round trips be read back syntactically
+        if mb >= W // 8 or not ex.must(z3.ULT(r, z3.BitVecVal(1 << (8 * mb), W))):
+            mb = min(mb + 1, W // 8)
+        bset(ex, a[0], r, mb)
     return a[0]
 
 def s_sub(ex, a, i):
